@@ -18,7 +18,7 @@ explored as deviations from the default (d <= 1 quick, d <= 2 thorough).
 import itertools
 import os
 
-from .. import core, tools
+from .. import core, tools, skbuild
 
 PROPERTY = 'C10'
 NEEDS_C = True
@@ -137,9 +137,7 @@ def write_init(cfg, seq, d):
     poke(0x7DFF, [ISR & 0xFF, ISR >> 8])
     poke(0x9000, [0x81, 0x7F, 0x00, 0x3C, 0xFF, 0x10])
     if machine != '48K':
-        ram = []
-        for b in banks:
-            ram.extend(b)
+        ram = [list(b) for b in banks]      # write_snapshot takes a list of 8 banks for a 128K machine
     t0 = t0_value(cfg['t0'], machine, len(seq))
     regs = ['a=90', 'f=1', 'bc=4660', 'de=22136', 'hl=36864', 'ix=37120', 'iy=23610', 'sp=31232', 'i=63', 'r=200',
             '^a=1', '^f=2', '^bc=772', '^de=1286', '^hl=1800', 'pc={}'.format(ORG)]
@@ -148,6 +146,9 @@ def write_init(cfg, seq, d):
         state += ['7ffd=0', 'fffd=3', 'ay[3]=77']
     fname = os.path.join(d, 'init.szx')
     write_snapshot(fname, ram, regs, state, machine)
+    from skoolkit.snapshot import Snapshot
+    if Snapshot.get(fname).machine != machine:
+        raise skbuild.BrokenCheck('initial snapshot is not a {} snapshot'.format(machine))
     return fname, prog
 
 
